@@ -22,8 +22,9 @@ LEVEL = "proof"
 DRIVERS = ["drv_global"]
 TRUSTED = [
     "Lean 4.33 kernel; Mathlib lemmas; axioms ⊆ {propext, Classical.choice, Quot.sound}",
-    "FV/Model/Global.lean models ONLY the tolerance state of class Rectangle (sticky first definition); that no other "
-    "state of frame/ and tools/ influences results is checked by the differential fresh-vs-history runs, not proved",
+    "FV/Model/Global.lean models the tolerance state of class Rectangle (sticky first definition), FV/Model/Registers.lean "
+    "the legaliser registers (slack, name registry, debug mask); that no OTHER state of frame/ and tools/ influences "
+    "results is checked by the differential fresh-vs-history runs and the registers_untouched footprint, not proved",
     "libm sqrt enters as a monotone function parameter; theorems over exact ordered fields",
     "the ROBDD store half of the property is proved in FV/Props/C07.lean (append-only, semantics-preserving store)",
     "fork() gives the fresh interpreter: the parent imports the library but never executes an operation",
@@ -365,6 +366,133 @@ def run_legal(d: dict):
     return dig
 
 
+# ------------------------------------------------------------------ process-wide registers other than the tolerances
+def footprint() -> dict:
+    """content of the process-wide objects the property names (besides the tolerances and the ROBDD store): the
+    legaliser's name registry and debug mask, and the shared default-argument objects of `Ineq` and `Strop`.
+    Every observation point is optional (a module not loaded / an attribute renamed is simply not observed)."""
+    f: dict = {}
+    et = sys.modules.get("tools.legalfloor.expression_tree")
+    if et is not None:
+        if isinstance(getattr(et, "named_variables", None), (set, frozenset, list, dict)):
+            f["names"] = sorted(map(str, et.named_variables))
+        if isinstance(getattr(et, "debug_print", None), int):
+            f["debug"] = et.debug_print
+    pb = sys.modules.get("tools.rect.pseudobool")
+    if pb is not None and hasattr(pb, "Ineq"):
+        d = getattr(pb.Ineq.__init__, "__defaults__", None) or ()
+        f["ineq_defaults"] = [[len(x.t), x.c] if hasattr(x, "t") and hasattr(x, "c") else repr(x) for x in d]
+    sp = sys.modules.get("tools.floorset_parser.floor_set_manager.strop")
+    if sp is not None and hasattr(sp, "Strop"):
+        d = getattr(sp.Strop.__init__, "__defaults__", None) or ()
+        f["strop_defaults"] = [list(x) if isinstance(x, list) else repr(x) for x in d]
+    return f
+
+
+REG_NAMES = ["time", "x", "w_0", "x_0", "time_0"]
+
+
+def gen_regs(rng: random.Random) -> list[list]:
+    """a random sequence of register operations (model: FV/Model/Registers.lean); `build` blocks follow the shape of
+    `Model.define_time` + equations: create `time`, install a fresh slack, add equations, read the slack."""
+    ops: list[list] = []
+
+    def build():
+        ops.append(["var", "time"])
+        ops.append(["set", rng.randint(1, 40)])
+        for _ in range(rng.randint(1, 3)):
+            ops.append(["eq", rng.randint(0, 1)])
+            if rng.random() < 0.3:
+                ops.append(["dbg", rng.choice([1, 2, 255])])
+        ops.append(["get"])
+
+    for _ in range(rng.randint(1, 8)):
+        k = rng.random()
+        if k < 0.3:
+            build()
+        elif k < 0.4:
+            ops.append(["get"])
+        elif k < 0.5:
+            ops.append(["eq", rng.randint(0, 1)])
+        elif k < 0.6:
+            ops.append(["set", rng.randint(1, 40)])
+        elif k < 0.7:
+            ops.append(["var", rng.choice(REG_NAMES)])
+        elif k < 0.8:
+            ops.append(["off", rng.choice([1, 2, 3, 0x10, 0xFF, 0x100, 0x1FF])])
+        elif k < 0.9:
+            ops.append(["on", rng.choice([1, 2, 0x100, 0x300, 0xFF])])
+        else:
+            ops.append(["dbg", rng.choice([1, 2, 4, 0x100, 0xFF, 0x3FF])])
+    return ops
+
+
+def regs_request(ops: list[list]) -> str:
+    return "F regs %d %s" % (len(ops), " ".join(" ".join(str(x) for x in op) for op in ops))
+
+
+def child_regs(ops):
+    """runs in a fresh forked interpreter: the same register operations on the real tools.legalfloor.expression_tree."""
+    import warnings
+    warnings.simplefilter("ignore")
+    import io
+    import contextlib
+    import shutil
+    try:
+        from tools.legalfloor import expression_tree as et
+        from gekko import GEKKO
+    except Exception as ex:  # legaliser not importable here: nothing to compare
+        return None
+    g = GEKKO(remote=False)
+    outs = []
+    try:
+        probe_var = None
+        for op in ops:
+            buf = io.StringIO()
+            o = "u"
+            with contextlib.redirect_stdout(buf):
+                try:
+                    if op[0] == "set":
+                        et.set_epsilon(et.ExpressionTree(g, float(op[1])))
+                    elif op[0] == "get":
+                        o = "t%d" % round(et.get_epsilon())
+                    elif op[0] == "eq":
+                        if probe_var is None:
+                            probe_var = et.ExpressionTree(g, g.Var(value=0.0, lb=0, ub=10, name="q"))
+                        n0 = len(g._equations)
+                        et.add_equation(g, probe_var, et.Cmp.LE, et.ExpressionTree(g, 0.0), "probe", bool(op[1]))
+                        txt = str(g._equations[-1]) if len(g._equations) > n0 else ""
+                        if op[1]:
+                            o = "u" if txt.replace(" ", "").endswith("<=0.0") else "eq?" + txt
+                        else:
+                            o = "t%d" % round(float(txt.split("<=")[1]))
+                    elif op[0] == "var":
+                        o = "n:" + str(et.ExpressionTree.create_variable(g, 1.0, 0, 10, op[1]).data["name"])
+                    elif op[0] == "off":
+                        et.turn_off_flag(int(op[1]))
+                    elif op[0] == "on":
+                        et.turn_on_flag(int(op[1]))
+                    elif op[0] == "dbg":
+                        et.debug("probe", flag=int(op[1]))
+                        o = None
+                except (NameError, AttributeError):
+                    o = "err"
+                except Exception as ex:
+                    o = "exc:" + type(ex).__name__
+            if o is None:
+                o = "p1" if buf.getvalue() else "p0"
+            outs.append(o)
+        try:
+            e = str(round(et.epsilon.evaluate()))
+        except (NameError, AttributeError):
+            e = "none"
+        tail = "eps=%s debug=%s names=%d" % (e, et.debug_print, len(et.named_variables))
+    finally:
+        shutil.rmtree(getattr(g, "_path", "") or "/nonexistent", ignore_errors=True)
+    return " ".join(outs) + " | " + tail
+
+
+
 def child(task):
     """runs in a fresh forked interpreter."""
     hist, probe = task
@@ -375,6 +503,7 @@ def child(task):
     import contextlib
     states = []
     props = []
+    feet = [footprint()]
     out = io.StringIO()
     with contextlib.redirect_stdout(out):
         for h in hist:
@@ -384,13 +513,15 @@ def child(task):
                 prop = None
             props.append(prop)
             states.append([Rectangle._distance_epsilon, Rectangle._area_epsilon])
+            feet.append(footprint())
         try:
             dig, prop = run_op(probe)
         except Exception as ex:
             dig, prop = ["exception", type(ex).__name__], None
     props.append(prop)
     states.append([Rectangle._distance_epsilon, Rectangle._area_epsilon])
-    return json.dumps(dig), states, props
+    feet.append(footprint())
+    return json.dumps(dig), states, props, feet
 
 
 # ------------------------------------------------------------------ comparison
@@ -574,14 +705,32 @@ def run(ctx: Ctx) -> None:
     for hist, probe in tasks:
         jobs.append(([], probe))
         jobs.append((hist, probe))
+    # the parent only IMPORTS the modules that hold process-wide objects, so that every child can compare their
+    # content with the import-time content
+    for mod in ("tools.rect.pseudobool", "tools.floorset_parser.floor_set_manager.strop", "tools.legalfloor.expression_tree"):
+        try:
+            __import__(mod)
+        except Exception:
+            ctx.notes.append(f"{mod} not importable: its registers are not observed")
+    baseline = footprint()
+    reg_tasks = [[["get"]], [["var", "time"], ["set", 3], ["eq", 0], ["eq", 1], ["get"]]] + \
+                [gen_regs(rng) for _ in range(ctx.n(150, 2500))]
     mpctx = mp.get_context("fork")
     with mpctx.Pool(processes=min(16, os.cpu_count() or 4), maxtasksperchild=1) as pool:
         results = pool.map(child, jobs, chunksize=1)
+        reg_results = pool.map(child_regs, reg_tasks, chunksize=1)
+    regs_stream(ctx, reg_tasks, reg_results)
     reqs, expect = [], []
     for i, (hist, probe) in enumerate(tasks):
-        fresh_dig, fresh_states, fresh_props = results[2 * i]
-        hist_dig, hist_states, hist_props = results[2 * i + 1]
+        fresh_dig, fresh_states, fresh_props, fresh_feet = results[2 * i]
+        hist_dig, hist_states, hist_props, hist_feet = results[2 * i + 1]
         inp = {"history": hist, "probe": probe}
+        # no operation writes the name registry, the debug mask or the shared default-argument objects
+        for k, ft in enumerate(hist_feet + fresh_feet):
+            bad = {key: (baseline.get(key), v) for key, v in ft.items() if key in baseline and baseline[key] != v}
+            if bad:
+                ctx.spec_fail("registers_untouched", inp, {"after_op": k, "import_time_vs_now": bad}, size=len(hist))
+                break
         nontrivial = any(h["kind"] in ("netlist", "die", "alloc", "sat", "legal") for h in hist)
         ctx.case("fork", (json.dumps(hist, sort_keys=True), json.dumps(probe, sort_keys=True)), nontrivial,
                  sample={"probe_kind": probe["kind"], "scale": probe["scale"], "history": [(h["kind"], h["scale"]) for h in hist],
@@ -633,9 +782,45 @@ def run(ctx: Ctx) -> None:
             ctx.disagree("eps-state", inp, impl, rep, size=len(inp["history"]))
 
 
+def regs_stream(ctx: Ctx, reg_tasks, reg_results) -> None:
+    """correspondence of the legaliser registers with FV/Model/Registers.lean + the spec clauses the theorems state."""
+    if any(r is None for r in reg_results):
+        ctx.notes.append("legaliser not importable: register correspondence not run")
+        return
+    replies = ctx.model([regs_request(ops) for ops in reg_tasks])
+    for ops, impl, rep in zip(reg_tasks, reg_results, replies or [None] * len(reg_tasks)):
+        inp = {"regs": ops}
+        ctx.case("regs", json.dumps(ops), len(ops) > 1)
+        for op in ops:
+            ctx.count("regop:" + op[0])
+        outs = impl.split(" | ")[0].split(" ")
+        # spec (theorems createVariable_keeps_name / reachable_names_nil): a variable gets the requested name
+        for op, o in zip(ops, outs):
+            if op[0] == "var" and o != "n:" + op[1]:
+                ctx.spec_fail("createVariable_keeps_name", inp, {"requested": op[1], "got": o}, size=len(ops))
+        # spec (legal_build_history_indep): after a slack was installed, every read sees the LAST one installed
+        last = None
+        for op, o in zip(ops, outs):
+            if op[0] == "set":
+                last = op[1]
+            elif (op[0] == "get" or (op[0] == "eq" and not op[1])) and last is not None and o != "t%d" % last:
+                ctx.spec_fail("slack_read_is_last_installed", inp, {"installed": last, "read": o}, size=len(ops))
+        if rep is not None:
+            rep = rep.replace("err:NameError", "err")
+            if rep != impl:
+                ctx.disagree("regs", inp, impl, rep, size=len(ops))
+    if replies is None:
+        ctx.notes.append("model driver unavailable: register correspondence not run")
+
+
 def replay(ctx: Ctx, body: dict) -> None:
     inp = body["input"]
     mpctx = mp.get_context("fork")
+    if "regs" in inp:
+        with mpctx.Pool(processes=1, maxtasksperchild=1) as pool:
+            rr = pool.map(child_regs, [inp["regs"]], chunksize=1)
+        regs_stream(ctx, [inp["regs"]], rr)
+        return
     with mpctx.Pool(processes=2, maxtasksperchild=1) as pool:
         r = pool.map(child, [([], inp["probe"]), (inp["history"], inp["probe"])], chunksize=1)
     same, _ = digests_equal(r[0][0], r[1][0])
